@@ -97,6 +97,11 @@ type Gen struct {
 	invAssumed map[string]bool
 	initMaps []string
 	AutoInv  []string
+	frameDone bool
+	frameOK bool
+	frameWhole map[string]bool
+	frameAllowed map[string][]string
+	frameAssigns []string
 	Vacuous  []string
 	nilDone  map[string][]*ssa.BasicBlock
 }
@@ -216,6 +221,11 @@ func (g *Gen) specSort(t string) Sort {
 		return Sort("(Array Int Str)")
 	case "refarray":
 		return Sort("(Array Int Ref)")
+	case "boolarray":
+		return Sort("(Array Int Bool)")
+	}
+	if strings.HasPrefix(t, "array:") {
+		return Sort(arrSort("Int", string(g.specSort(t[len("array:"):]))))
 	}
 	return g.S.opaqueSort(t)
 }
@@ -318,6 +328,10 @@ func (g *Gen) freshRef(h Heap, hint string) (string, Heap) {
 	g.S.declare(r, "Ref")
 	al := g.hget(h, g.allocComp())
 	g.S.assert(and(not(sel(al, r)), not(eq(r, "null"))))
+	// allocation is monotone: an object that is new now was not allocated at function entry either
+	if init := g.initSym(g.allocComp()); init != al {
+		g.S.assert(not(sel(init, r)))
+	}
 	h = h.clone()
 	h["ALLOC"] = store(al, r, "true")
 	// ghost maps keyed by ref start at their zero value for a fresh object
